@@ -7,9 +7,15 @@ class SymDict:
 
   def __init__(self, *a, **kw):
     self._items = []
-    if a or kw:
-      for k, v in dict(*a, **kw).items():
+    if a:
+      src = a[0]
+      # like dict(x): a mapping is read through keys() and [] (what CPython does for anything that is not a plain
+      # dict), anything else is an iterable of pairs; no hashing anywhere
+      pairs = [(k, src[k]) for k in src.keys()] if hasattr(src, "keys") else [tuple(p) for p in src]
+      for k, v in pairs:
         SymDict.__setitem__(self, k, v)
+    for k, v in kw.items():
+      SymDict.__setitem__(self, k, v)
 
   def _find(self, k):
     for i, (kk, _) in enumerate(self._items):
